@@ -214,6 +214,12 @@ pub enum MAct {
   Sample(usize),
   CloneHandle(usize),
   Retain(usize),
+  /// append a fresh, still empty composite to the composite (a handle to it is kept)
+  Nest,
+  /// append a member to nested composite k through the kept handle
+  ChildAppend(usize),
+  /// is_closed() of nested composite k
+  ChildSample(usize),
 }
 
 #[derive(Clone, Debug, Serialize, Deserialize)]
@@ -362,7 +368,10 @@ impl Scenario for C17Multi {
     let mut acts = Vec::new();
     let deep = deepen(rng, tier);
     for _ in 0..rng.range(2, 10 * deep) {
-      acts.push(match rng.weighted(&[5, 1, 2, 2, 4, 2, 1]) {
+      acts.push(match rng.weighted(&[5, 1, 2, 2, 4, 2, 1, 1, 2, 2]) {
+        7 => MAct::Nest,
+        8 => MAct::ChildAppend(rng.below(3)),
+        9 => MAct::ChildSample(rng.below(3)),
         0 => MAct::Append,
         1 => MAct::AppendClosed,
         2 => MAct::CloseMember(rng.below(4)),
@@ -384,6 +393,10 @@ impl Scenario for C17Multi {
     let mut hl: Vec<Option<MultiSubscription<'static>>> = vec![Some(MultiSubscription::default())];
     let mut hs: Vec<Option<MultiSubscriptionThreads>> = vec![Some(MultiSubscriptionThreads::default())];
     let mut members: Vec<Member> = Vec::new();
+    // nested composites: kept handles and (answered closed before, appended to since)
+    let mut cl: Vec<MultiSubscription<'static>> = Vec::new();
+    let mut cs: Vec<MultiSubscriptionThreads> = Vec::new();
+    let mut cstate: Vec<(bool, bool)> = Vec::new();
     let mut unsubscribed = false;
     let mut twice = 0u64;
     let mut seen_closed = false;
@@ -430,6 +443,65 @@ impl Scenario for C17Multi {
           members.push(m);
           appended_since_closed = true;
           trace.push_str("append ");
+        }
+        MAct::Nest => {
+          let i = lv[0];
+          if case.threads_flavour {
+            let c = MultiSubscriptionThreads::default();
+            hs[i].as_mut().unwrap().append(BoxSubscriptionThreads::new(c.clone()));
+            cs.push(c);
+          } else {
+            let c = MultiSubscription::default();
+            hl[i].as_mut().unwrap().append(BoxSubscription::new(c.clone()));
+            cl.push(c);
+          }
+          cstate.push((false, false));
+          appended_since_closed = true;
+          trace.push_str("nest ");
+        }
+        MAct::ChildAppend(k) => {
+          if cstate.is_empty() {
+            continue;
+          }
+          let k = *k % cstate.len();
+          let m = Member { closed: Default::default(), unsubscribed: Default::default() };
+          let ms = MemberSub { closed: m.closed.clone(), unsubscribed: m.unsubscribed.clone() };
+          if case.threads_flavour {
+            cs[k].append(BoxSubscriptionThreads::new(ms));
+          } else {
+            cl[k].append(BoxSubscription::new(ms));
+          }
+          trace.push_str(&format!("child{}-append ", k));
+          if unsubscribed {
+            late_appends += 1;
+            if m.unsubscribed.load(SeqCst) != 1 && violation.is_none() {
+              violation = Some(Violation {
+                rule: "c17.late-append-left-running".into(),
+                site: site.clone(),
+                detail: format!("`{}`: the composite (and with it its nested member composite {}) had been unsubscribed; a subscription appended to the nested composite afterwards was not unsubscribed", trace.trim(), k),
+              });
+            }
+          }
+          members.push(m);
+          cstate[k].1 = true;
+          appended_since_closed = true;
+        }
+        MAct::ChildSample(k) => {
+          if cstate.is_empty() {
+            continue;
+          }
+          let k = *k % cstate.len();
+          let c = if case.threads_flavour { cs[k].is_closed() } else { cl[k].is_closed() };
+          trace.push_str(&format!("child{}-is_closed={} ", k, c));
+          if unsubscribed && !c && violation.is_none() {
+            violation = Some(Violation { rule: "c17.clone-open-after-unsubscribe".into(), site: site.clone(), detail: format!("`{}`: the composite was unsubscribed, a remaining handle of its nested member composite reports open", trace.trim()) });
+          }
+          if cstate[k].0 && !c && !cstate[k].1 && violation.is_none() {
+            violation = Some(Violation { rule: "c17.closed-then-open".into(), site: site.clone(), detail: format!("`{}`: is_closed() of the nested composite went from true back to false", trace.trim()) });
+          }
+          if c {
+            cstate[k] = (true, false);
+          }
         }
         MAct::CloseMember(k) => {
           if !members.is_empty() {
